@@ -334,6 +334,7 @@ func main() {
 	core := []string{"observe-acked-silent-cancel", "do-silent-cancel", "upload-abort-cancel", "download-abort-cancel", "dup-token", "observe-cancel", "observe-silent-cancel", "incoming-blockwise-abort", "write-error", "do-ok"}
 	scs = append(scs, scenario(cfg{Depth: ev.Pick(r, 4, 5), Kinds: core}))
 	addMore(r, &scs)
+	addKeepAlive(r, &scs)
 	sum := mcx.Explore(r, scs, mcx.Config{Wall: ev.Pick(r, 4*time.Minute, 30*time.Minute)})
 	mcx.Report(r, scs, sum)
 	r.Set("rule", "history = sequence of exchanges, each one of 24 kinds (plain/separate/NON Do, silence+cancel, reset, 3-block upload and download with success / abort / wrong block, duplicate token, observe register+cancel / live / silent / 4.04, ping, one-way writes, incoming CON/NON requests, aborted incoming block-wise upload, injected write error); after the history the virtual clock advances 300 s and housekeeping runs twice; oracle: every table size reported by the overlay accessor (token handlers, MID handlers, per-ID locks, response cache, block-wise sending/receiving caches, limiter queues/waiters/processed, observations) is zero, observations = the live ones; distinct outcome = distinct history")
